@@ -27,6 +27,7 @@ From NV Require Import Proofs.Boehm Proofs.DerivAnalytic Proofs.BasisOneR Proofs
 From NV Require Import Proofs.BasisR Proofs.DerivsR Proofs.DerivsRatSurf Proofs.DersRow0 Proofs.DerivsOrder0 Proofs.DersWindow Proofs.DersWindow56 Proofs.DerivsAgree Proofs.DerivsAgreeSurf Proofs.Boehm Proofs.Hodograph.
 From NV Require Import Run.DerivsH.
 From NV Require Import Proofs.DerivCptsSpec Proofs.DerivsAgreeGeneral Proofs.DerivsAgreeGeneralSurf.
+From NV Require Import Proofs.HodographObj.
 Import ListNotations.
 
 (* ------------------------------------------------------------------------------------------------ structure *)
@@ -723,4 +724,155 @@ Proof.
   { intros i Hi. cbn in Hi. do 4 (destruct i as [|i]; [reflexivity|]). lia. }
   repeat split; try assumption; try (cbn; lia).
   apply curve_derivs2_eq_curve_derivs; try assumption; cbn; lia.
+Qed.
+
+
+
+Open Scope R_scope.
+
+(* ====================== the hodograph OBJECTS (Proofs/HodographObj.v): operations.derivative_curve / derivative_surface ======================
+   "... the derivative (hodograph) curve and surface constructors ... agree with these values."
+   Model.Derivs.derivative_curve / derivative_surface (as repaired by fixes/C02-hodograph-keep-parametrization.diff) return the data the
+   constructors put into the new objects; the theorems evaluate those objects with the model's own point evaluation (Model.Eval).
+   The guards 2 <= p / derivative_surface_code_returns delimit the inputs on which the real code returns (known findings
+   hodograph-curve-degree-1, hodograph-surface-degree-1, hodograph-surface-multiple-knot); the underlying lemmas of HodographObj.v hold
+   from degree 1 on and without the multiplicity guard (x/0 = 0 at the real-number instance, and the second-level control points
+   whose zero denominators make the code raise are not used by the returned nets). *)
+
+(* [G] every degree p >= 2, sorted knot vector (any multiplicities), well-formed control polygon: the returned triple is a valid curve
+   of degree p-1 on the knot vector U[1:-1] (sorted, (n-1)+(p-1)+1 knots, knot m = knot m+1 of U) with n-1 control points *)
+Theorem C02_derivative_curve_is_valid_curve : forall (U : list R) (P : list (list R)) (p dim : nat),
+  sortedR U -> wf_net P dim -> (2 <= p)%nat -> (p < length P)%nat -> length U = (length P + p + 1)%nat ->
+  forall p' U' Q, derivative_curve Rops p U P = (p', U', Q) ->
+  p' = (p - 1)%nat /\ U' = trim_kv U /\ length Q = (length P - 1)%nat /\ wf_net Q dim /\ sortedR U' /\
+  length U' = (length Q + p' + 1)%nat /\ (p' < length Q)%nat /\
+  (forall m, (m < length U')%nat -> knR U' m = knR U (S m)).
+Proof. intros U P p dim Hs Hw Hp. apply derivative_curve_object_valid; try assumption; lia. Qed.
+Print Assumptions C02_derivative_curve_is_valid_curve.
+
+(* [G] the point of the hodograph object at every u of the half-open domain [U_p, U_n) IS the first-derivative vector that
+   CurveEvaluator.derivatives returns for the input curve at u (any requested order >= 1) = sum_i N'_{i,p}(u) P_i (Eq. 2.9), and so is
+   its Cox-de Boor sum (curve_def of C01) *)
+Theorem C02_derivative_curve_evaluates_to_first_derivative : forall (U : list R) (P : list (list R)) (p dim : nat),
+  sortedR U -> wf_net P dim -> (2 <= p)%nat -> (p < length P)%nat -> length U = (length P + p + 1)%nat ->
+  forall p' U' Q, derivative_curve Rops p U P = (p', U', Q) ->
+  forall u, knR U p <= u < knR U (length P) ->
+  (forall order, (1 <= order)%nat -> curve_point Rops dim p' U' Q u = nth 1 (curve_derivs Rops dim p U P u order) []) /\
+  length (curve_point Rops dim p' U' Q u) = dim /\
+  (forall d, (d < dim)%nat -> nth d (curve_point Rops dim p' U' Q u) 0 = curve_dk U p P 1 d u) /\
+  (forall d, curve_def U' p' Q d u = curve_dk U p P 1 d u).
+Proof. intros U P p dim Hs Hw Hp. apply derivative_curve_object_value; try assumption; lia. Qed.
+Print Assumptions C02_derivative_curve_evaluates_to_first_derivative.
+
+(* [G] analytically: inside every knot span of the domain the hodograph point is the limit-based derivative of every coordinate of the
+   input curve (Cox-de Boor sum, and evaluated point); on the half-open span - in particular at knots - the right derivative *)
+Theorem C02_derivative_curve_is_the_true_derivative : forall (U : list R) (P : list (list R)) (p dim : nat),
+  sortedR U -> wf_net P dim -> (2 <= p)%nat -> (p < length P)%nat -> length U = (length P + p + 1)%nat ->
+  forall p' U' Q, derivative_curve Rops p U P = (p', U', Q) ->
+  forall s d, (p <= s < length P)%nat -> (d < dim)%nat ->
+  (forall u, knR U s < u < knR U (s + 1) ->
+     derivable_pt_lim (fun x => curve_def U p P d x) u (nth d (curve_point Rops dim p' U' Q u) 0) /\
+     derivable_pt_lim (fun x => nth d (curve_point Rops dim p U P x) 0) u (nth d (curve_point Rops dim p' U' Q u) 0)) /\
+  (forall u, knR U s <= u < knR U (s + 1) ->
+     right_derivable_pt_lim (fun x => curve_def U p P d x) u (nth d (curve_point Rops dim p' U' Q u) 0) /\
+     right_derivable_pt_lim (fun x => nth d (curve_point Rops dim p U P x) 0) u (nth d (curve_point Rops dim p' U' Q u) 0)).
+Proof. intros U P p dim Hs Hw Hp. apply derivative_curve_object_true_derivative; try assumption; lia. Qed.
+Print Assumptions C02_derivative_curve_is_the_true_derivative.
+
+(* the guard (= harness second_level_zero negated, degrees >= 2) excludes every zero denominator of A3.3/A3.7 called with order 2 *)
+Theorem C02_hodograph_surface_guard_means_no_zero_denominator : forall (p : nat) (U : list R) (n : nat),
+  sortedR U -> (2 <= p)%nat -> (p < n)%nat -> length U = (n + p + 1)%nat -> second_level_nonzero p U n ->
+  forall k i, (1 <= k <= 2)%nat -> (i + k <= n - 1)%nat -> knR U (i + p + 1) - knR U (i + k) <> 0.
+Proof. exact guard_no_zero_denominator. Qed.
+Print Assumptions C02_hodograph_surface_guard_means_no_zero_denominator.
+
+(* [G] surfaces, bi-degree >= (2,2), no interior knot of multiplicity = degree (derivative_surface_code_returns): the three returned
+   nets have (su-1) x sv, su x (sv-1), (su-1) x (sv-1) points of the input dimension; the trimmed knot vectors are valid *)
+Theorem C02_derivative_surface_nets_valid : forall (Uu Uv : list R) (P : list (list R)) (pu pv su sv dim : nat),
+  sortedR Uu -> sortedR Uv -> wf_net P dim -> length P = (su * sv)%nat -> derivative_surface_code_returns pu pv Uu Uv su sv ->
+  (pu < su)%nat -> (pv < sv)%nat -> length Uu = (su + pu + 1)%nat -> length Uv = (sv + pv + 1)%nat ->
+  forall Su Sv Suv, derivative_surface Rops pu pv Uu Uv su sv P = (Su, Sv, Suv) ->
+  (length Su = ((su - 1) * sv)%nat /\ wf_net Su dim) /\ (length Sv = (su * (sv - 1))%nat /\ wf_net Sv dim) /\
+  (length Suv = ((su - 1) * (sv - 1))%nat /\ wf_net Suv dim) /\
+  sortedR (trim_kv Uu) /\ length (trim_kv Uu) = ((su - 1) + (pu - 1) + 1)%nat /\
+  sortedR (trim_kv Uv) /\ length (trim_kv Uv) = ((sv - 1) + (pv - 1) + 1)%nat.
+Proof. intros Uu Uv P pu pv su sv dim H1 H2 H3 H4 (G1 & G2 & _). apply derivative_surface_valid; try assumption; lia. Qed.
+Print Assumptions C02_derivative_surface_nets_valid.
+
+(* [G] Su_point / Sv_point / Suv_point = Model.Eval.surface_point of the three objects (degrees (pu-1,pv), (pu,pv-1), (pu-1,pv-1), knot vectors
+   (Uu[1:-1],Uv), (Uu,Uv[1:-1]), (Uu[1:-1],Uv[1:-1])): on the half-open domain they are the entries [1][0], [0][1], [1][1] of
+   SurfaceEvaluator.derivatives of the input surface = the Eq. 2.9 tensor sums surface_dkl *)
+Theorem C02_derivative_surface_evaluates_to_partials : forall (Uu Uv : list R) (P : list (list R)) (pu pv su sv dim : nat),
+  sortedR Uu -> sortedR Uv -> wf_net P dim -> length P = (su * sv)%nat -> derivative_surface_code_returns pu pv Uu Uv su sv ->
+  (pu < su)%nat -> (pv < sv)%nat -> length Uu = (su + pu + 1)%nat -> length Uv = (sv + pv + 1)%nat ->
+  forall Su Sv Suv, derivative_surface Rops pu pv Uu Uv su sv P = (Su, Sv, Suv) ->
+  forall u v, knR Uu pu <= u < knR Uu su -> knR Uv pv <= v < knR Uv sv ->
+  (forall order, (1 <= order)%nat ->
+     let SKL := surface_derivs Rops dim pu pv Uu Uv su sv P u v order in
+     Su_point Uu Uv pu pv su sv dim Su u v = get3 SKL 1 0 /\ Sv_point Uu Uv pu pv su sv dim Sv u v = get3 SKL 0 1 /\
+     Suv_point Uu Uv pu pv su sv dim Suv u v = get3 SKL 1 1) /\
+  (length (Su_point Uu Uv pu pv su sv dim Su u v) = dim /\ length (Sv_point Uu Uv pu pv su sv dim Sv u v) = dim /\
+   length (Suv_point Uu Uv pu pv su sv dim Suv u v) = dim) /\
+  (forall d, (d < dim)%nat ->
+     nth d (Su_point Uu Uv pu pv su sv dim Su u v) 0 = surface_dkl Uu Uv pu pv su sv P 1 0 d u v /\
+     nth d (Sv_point Uu Uv pu pv su sv dim Sv u v) 0 = surface_dkl Uu Uv pu pv su sv P 0 1 d u v /\
+     nth d (Suv_point Uu Uv pu pv su sv dim Suv u v) 0 = surface_dkl Uu Uv pu pv su sv P 1 1 d u v).
+Proof. intros Uu Uv P pu pv su sv dim H1 H2 H3 H4 (G1 & G2 & _). apply derivative_surface_points; try assumption; lia. Qed.
+Print Assumptions C02_derivative_surface_evaluates_to_partials.
+
+(* [G] analytically: S_u = dS/du and S_v = dS/dv (of the tensor-product definition surface_def of C01 and of the evaluated point), and
+   S_uv = d(S_v)/du = d(S_u)/dv, limit-based, inside the knot spans tu, tv of the two domains *)
+Theorem C02_derivative_surface_objects_are_the_true_partials : forall (Uu Uv : list R) (P : list (list R)) (pu pv su sv dim : nat),
+  sortedR Uu -> sortedR Uv -> wf_net P dim -> length P = (su * sv)%nat -> derivative_surface_code_returns pu pv Uu Uv su sv ->
+  (pu < su)%nat -> (pv < sv)%nat -> length Uu = (su + pu + 1)%nat -> length Uv = (sv + pv + 1)%nat ->
+  forall Su Sv Suv, derivative_surface Rops pu pv Uu Uv su sv P = (Su, Sv, Suv) ->
+  forall tu tv d, (pu <= tu < su)%nat -> (pv <= tv < sv)%nat -> (d < dim)%nat ->
+  (forall u v, knR Uu tu < u < knR Uu (tu + 1) -> knR Uv pv <= v < knR Uv sv ->
+     derivable_pt_lim (fun x => surface_def Uu Uv pu pv su sv P d x v) u (nth d (Su_point Uu Uv pu pv su sv dim Su u v) 0) /\
+     derivable_pt_lim (fun x => nth d (surface_point Rops dim pu pv Uu Uv su sv P x v) 0) u (nth d (Su_point Uu Uv pu pv su sv dim Su u v) 0) /\
+     derivable_pt_lim (fun x => nth d (Sv_point Uu Uv pu pv su sv dim Sv x v) 0) u (nth d (Suv_point Uu Uv pu pv su sv dim Suv u v) 0)) /\
+  (forall u v, knR Uu pu <= u < knR Uu su -> knR Uv tv < v < knR Uv (tv + 1) ->
+     derivable_pt_lim (fun y => surface_def Uu Uv pu pv su sv P d u y) v (nth d (Sv_point Uu Uv pu pv su sv dim Sv u v) 0) /\
+     derivable_pt_lim (fun y => nth d (surface_point Rops dim pu pv Uu Uv su sv P u y) 0) v (nth d (Sv_point Uu Uv pu pv su sv dim Sv u v) 0) /\
+     derivable_pt_lim (fun y => nth d (Su_point Uu Uv pu pv su sv dim Su u y) 0) v (nth d (Suv_point Uu Uv pu pv su sv dim Suv u v) 0)).
+Proof. intros Uu Uv P pu pv su sv dim H1 H2 H3 H4 (G1 & G2 & _). apply derivative_surface_true_partials; try assumption; lia. Qed.
+Print Assumptions C02_derivative_surface_objects_are_the_true_partials.
+
+(* [G] the same as right derivatives on the half-open spans (so also at knots: the property's convention) *)
+Theorem C02_derivative_surface_objects_right_partials : forall (Uu Uv : list R) (P : list (list R)) (pu pv su sv dim : nat),
+  sortedR Uu -> sortedR Uv -> wf_net P dim -> length P = (su * sv)%nat -> derivative_surface_code_returns pu pv Uu Uv su sv ->
+  (pu < su)%nat -> (pv < sv)%nat -> length Uu = (su + pu + 1)%nat -> length Uv = (sv + pv + 1)%nat ->
+  forall Su Sv Suv, derivative_surface Rops pu pv Uu Uv su sv P = (Su, Sv, Suv) ->
+  forall tu tv d, (pu <= tu < su)%nat -> (pv <= tv < sv)%nat -> (d < dim)%nat ->
+  (forall u v, knR Uu tu <= u < knR Uu (tu + 1) -> knR Uv pv <= v < knR Uv sv ->
+     right_derivable_pt_lim (fun x => surface_def Uu Uv pu pv su sv P d x v) u (nth d (Su_point Uu Uv pu pv su sv dim Su u v) 0) /\
+     right_derivable_pt_lim (fun x => nth d (surface_point Rops dim pu pv Uu Uv su sv P x v) 0) u (nth d (Su_point Uu Uv pu pv su sv dim Su u v) 0) /\
+     right_derivable_pt_lim (fun x => nth d (Sv_point Uu Uv pu pv su sv dim Sv x v) 0) u (nth d (Suv_point Uu Uv pu pv su sv dim Suv u v) 0)) /\
+  (forall u v, knR Uu pu <= u < knR Uu su -> knR Uv tv <= v < knR Uv (tv + 1) ->
+     right_derivable_pt_lim (fun y => surface_def Uu Uv pu pv su sv P d u y) v (nth d (Sv_point Uu Uv pu pv su sv dim Sv u v) 0) /\
+     right_derivable_pt_lim (fun y => nth d (surface_point Rops dim pu pv Uu Uv su sv P u y) 0) v (nth d (Sv_point Uu Uv pu pv su sv dim Sv u v) 0) /\
+     right_derivable_pt_lim (fun y => nth d (Su_point Uu Uv pu pv su sv dim Su u y) 0) v (nth d (Suv_point Uu Uv pu pv su sv dim Suv u v) 0)).
+Proof. intros Uu Uv P pu pv su sv dim H1 H2 H3 H4 (G1 & G2 & _). apply derivative_surface_right_partials; try assumption; lia. Qed.
+Print Assumptions C02_derivative_surface_objects_right_partials.
+
+(* non-vacuity: a quadratic curve with an interior knot, and a biquadratic 3 x 4 surface satisfying the guard *)
+Example C02_hodograph_hypotheses_satisfiable :
+  let U := [0;0;0;1/2;1;1;1] in let P := [[0;0];[1;2];[3;1];[4;0]] in
+  let Uu := [0;0;0;1;1;1] in
+  sortedR U /\ wf_net P 2 /\ (2 <= 2 < length P)%nat /\ length U = (length P + 2 + 1)%nat /\
+  sortedR Uu /\ derivative_surface_code_returns 2 2 Uu U 3 4 /\
+  length (snd (derivative_curve Rops 2 U P)) = 3%nat.
+Proof.
+  cbv zeta.
+  assert (Hs : sortedR [0;0;0;1/2;1;1;1]).
+  { intros i j [Hij Hj]. cbn in Hj. unfold kn. cbn [o0 Rops].
+    do 7 (destruct i as [|i]; [do 7 (destruct j as [|j]; [try lia; cbn; lra|]); lia|]). lia. }
+  assert (Hsu : sortedR [0;0;0;1;1;1]).
+  { intros i j [Hij Hj]. cbn in Hj. unfold kn. cbn [o0 Rops].
+    do 6 (destruct i as [|i]; [do 6 (destruct j as [|j]; [try lia; cbn; lra|]); lia|]). lia. }
+  assert (Hw : wf_net [[0;0];[1;2];[3;1];[4;0]] 2).
+  { intros i Hi. cbn in Hi. do 4 (destruct i as [|i]; [reflexivity|]). lia. }
+  repeat split; try assumption; try (cbn; lia).
+  - intros i Hi. assert (i = 0)%nat by lia. subst i. unfold kn. cbn. lra.
+  - intros i Hi. assert (i = 0 \/ i = 1)%nat as [-> | ->] by lia; unfold kn; cbn; lra.
 Qed.
